@@ -59,6 +59,8 @@ v('C17', 'fire', 'transform.py', "return Rotation.from_matrix(mat).as_euler('xyz
   "return Rotation.from_matrix(mat).as_euler('xyz')", 'degrees flag dropped')
 # ------------------------------------------------------------------ increments C15
 S = 'strapdown.py'
+v('C02 C09', 'fire', S, "        return self._integrate(increment.to_frame().transpose(), 'predict').iloc[0]", "        if increment['dt'] == 0:\n            return self.get_pva().rename(increment.name)\n        return self._integrate(increment.to_frame().transpose(), 'predict').iloc[0]", 'seeded C02 round 5: zero-step fast path of predict returns the stored row')
+v('C02', 'silent', S, "        return self._integrate(increment.to_frame().transpose(), 'predict').iloc[0]", "        row = self._integrate(increment.to_frame().transpose(), 'predict')\n        return row.iloc[0]")
 v('C15 C01', 'fire', S, 'coning = np.cross(gyro[:-1], gyro[1:]) / 12', 'coning = np.cross(gyro[:-1], gyro[1:]) / 6')
 v('C15', 'fire', S, 'np.cross(accel[:-1], gyro[1:])) / 12', 'np.cross(gyro[1:], accel[:-1])) / 12', 'swapped cross operands')
 v('C15', 'fire', S, 'index=imu.index[1:]', 'index=imu.index[:-1]')
